@@ -155,6 +155,7 @@ impl<'a> Eval<'a> {
                             Err(format!("{f} arity"))
                         }
                     }
+                    "BitString::new" if args.is_empty() => Ok(AV::Bits(vec![])),
                     "Oid::const_new" | "Oid::new" => match self.eval(args.first().ok_or("Oid arity")?)? {
                         AV::List(v) => flatten_oid(&v).map(AV::Oid),
                         AV::Oid(v) => Ok(AV::Oid(v)),
